@@ -16,7 +16,7 @@ import (
 func init() {
 	core.Register(&core.Check{
 		ID:    "C10",
-		Level: "exploration",
+		Level: "fault_enumeration",
 		Rule: "E-twin consumer + E-fault: (1) benign PRNG programs (the C01 family with file watches and consumer pauses so the reader lags) must leave Errors empty; " +
 			"(2) directed two-step histories whose second step invalidates a kernel watch before the first notification is processed (rename-then-delete, rename-then-rmdir, delete-then-Remove, rename-then-Remove, recreate-then-re-Add, rename-rename-delete) " +
 			"with the reader held back by a paused consumer for 0..64 earlier events, on files and directories; (3) real queue overflows of 1.1x and 2x max_queued_events (8x in thorough), twice in a row: " +
